@@ -82,6 +82,17 @@ def scenarios(quick: bool) -> list[tuple[dict, int]]:
             for to in (0.5001, 20.0):
                 p = {"qos_mode": False, "callers": [caller(cmd, timeout=to), caller("rq30c9_02", timeout=to)], "dev": ("disc", "drop", "late"), "disc_err": err}
                 sc.append((p, 2))
+    # one QosParams object handed to send_cmd for several commands (an application keeping its 'await the reply' settings): what the
+    # gateway's QoS mode does for one command must not change what the next one gets
+    for mode in (None, False, True):
+        for first in ("rq30c9_01", "w2309_01", "rq0418_00"):
+            for start in ("t0", "q"):
+                p = {
+                    "qos_mode": mode,
+                    "callers": [caller(first, wfr=True, timeout=20.0), caller("rq0418_00" if first != "rq0418_00" else "rq30c9_02", wfr=True, timeout=20.0, qos_of=0, start=start)],
+                    "dev": ("drop", "call"),
+                }
+                sc.append((p, 1))
     # the wall clock the queue stamps its entries with: 1 ms resolution (callers in the same millisecond read the same time) / set back
     # by an hour after the first caller (end of DST for naive local time, NTP) - each send must still end with a packet or a ProtocolError
     for wc in ("coarse", "stepback"):
